@@ -270,6 +270,26 @@ class _Stmt(ast.NodeTransformer):
                 out.append(ast.copy_location(ast.Return(value=val), s))
                 i += 2
                 continue
+            # if C: return False ; return E   ->   return not C and E        (E boolean typed; True: return C or E)
+            if isinstance(s, ast.If) and not s.orelse and len(s.body) == 1 and isinstance(s.body[0], ast.Return) and isinstance(s.body[0].value, ast.Constant) \
+                    and isinstance(s.body[0].value.value, bool) and isinstance(nxt, ast.Return) and nxt.value is not None and i + 2 == len(stmts) \
+                    and _bool_typed(nxt.value) and _bool_typed(s.test) and not getattr(s, "_elif", False):
+                if s.body[0].value.value:
+                    val = ast.BoolOp(op=ast.Or(), values=[s.test, nxt.value])
+                else:
+                    val = ast.BoolOp(op=ast.And(), values=[_neg(s.test), nxt.value])
+                out.append(ast.copy_location(ast.Return(value=ast.copy_location(_Expr().visit(val), s)), s))
+                i += 2
+                continue
+            # x = K ; if C: x = B   ->   x = B if C else K       (K a constant, C and B do not read x)
+            if isinstance(s, ast.Assign) and len(s.targets) == 1 and isinstance(s.targets[0], ast.Name) and isinstance(s.value, ast.Constant) and isinstance(nxt, ast.If) \
+                    and not nxt.orelse and len(nxt.body) == 1 and isinstance(nxt.body[0], ast.Assign) and len(nxt.body[0].targets) == 1 \
+                    and isinstance(nxt.body[0].targets[0], ast.Name) and nxt.body[0].targets[0].id == s.targets[0].id and not getattr(nxt, "_elif", False) \
+                    and _uses(s.targets[0].id, [nxt.test, nxt.body[0].value]) == 0 and not in_loop:
+                val = _Expr().visit(ast.copy_location(ast.IfExp(test=nxt.test, body=nxt.body[0].value, orelse=s.value), nxt))
+                out.append(ast.copy_location(ast.Assign(targets=s.targets, value=val, lineno=s.lineno), s))
+                i += 2
+                continue
             # x = E ; return x   ->   return E
             if isinstance(s, ast.Assign) and len(s.targets) == 1 and isinstance(s.targets[0], ast.Name) and isinstance(nxt, ast.Return) and isinstance(nxt.value, ast.Name) \
                     and nxt.value.id == s.targets[0].id and _uses(s.targets[0].id, [s.value]) == 0:
